@@ -31,6 +31,7 @@ func C14typetext(p *load.Program, run *report.Run) {
 	run.Rule("type-text-grammar", "for every type in the table of types.Parse (the names of its switch, arrays and slices), each text an arm of Info.String() can return for it — formats with %d as digits, i.Type as the name from types.Types, element types as valid texts, other arguments as a placeholder word — matches the reader's regular expressions (read from types/parse.go) and maps back to the same types.Type")
 	pkg := p.ByPath[load.Module+"/types"]
 	_, parse := dispatch.FindFunc(p, "types", "", "Parse")
+	parse = unwrapFunc(p, "types", parse)
 	_, str := dispatch.FindFunc(p, "types", "Info", "String")
 	if pkg == nil || parse == nil || str == nil {
 		run.Undecided("type-text-grammar", "types.Parse/Info.String", "", "functions not found")
